@@ -2,20 +2,27 @@
 Driver for C05 at scheduler level (id C05S): `Sched3Q` correspondence + judge on the observed trace.
 
 The judge is written from the property text and reads only what the REAL scheduler showed after every
-operation (pool with status / held flag, the proxies waiting on job preparation, the contents of the internal
-queues head first, the pool order, the proxies handed to job preparation) plus the queue definitions read off
-the real `IndepQueueManager` (`graph.queues`: name, limit, members).  It calls no model function.
+operation (pool with status / held / queued flag, the proxies waiting on job preparation, the contents of the
+internal queues head first, the pool order, the proxies handed to job preparation) plus the queue definitions read
+off the real `IndepQueueManager` (`graph.queues`: name, limit, members) and the commands of the history.  It calls
+no model function.
 
   J1  every pooled task name is a member of exactly one queue.
   J2  after every operation, for every queue with limit L > 0: the number of its pooled members that are
-      preparing / submitted / running / waiting on job preparation is at most L
-      (no manual triggering happens in these runs).
+      preparing / submitted / running / waiting on job preparation is at most L, not counting the members that were
+      triggered manually WHILE QUEUED ("triggering a queued task runs it regardless of the limit": the only legitimate
+      way over a limit) for as long as they stay active.
   J3  a queue never releases while at its limit: when a main loop hands k > 0 members of a limited queue to job
-      preparation, (active members before that loop) + k <= L.
+      preparation out of the queue, (ALL active members before that loop) + k <= L.
   J4  a held task is never released by its queue.
   J5  FIFO, held tasks skipped and keeping their place: (a) tasks that stay queued over an operation keep their
       relative order and newly queued tasks line up behind them; (b) whenever a task is released, every task of the
       same queue that was queued before it and is still queued afterwards is held.
+  J6  a queued task sits in its own queue: every entry of a deque is a member of that queue.
+  J8  a task that has a job or waits on job preparation does not sit in a queue (the queue would release it again).
+  J7  manual trigger of a task that is NOT queued: if its queue is full at that moment (active members before the
+      command, plus the members the same command has started before it, in the order the command handled them) it
+      must not start - it has to be queued.
 -/
 import CylcModel.Sched3QJson
 open Lean CylcModel.Drv CylcModel.Sched3Q
@@ -28,6 +35,7 @@ structure OTask where
   key : Key
   st : String
   held : Bool
+  queued : Bool
 
 structure OQ where
   name : String
@@ -49,7 +57,8 @@ def keyJ (j : Json) : Option Key :=
 
 def parseObs (ob : Json) : OObs :=
   { pool := (poolOf ob).map fun t =>
-      { key := keyOf t, st := (jStrField? t "st").getD "", held := (jBoolField? t "held").getD false },
+      { key := keyOf t, st := (jStrField? t "st").getD "", held := (jBoolField? t "held").getD false,
+        queued := (jBoolField? t "q").getD false },
     order := ((jArrField? ob "order").getD []).filterMap keyJ,
     qs := ((jArrField? ob "qs").getD []).filterMap fun q =>
       match jArr? q with
@@ -59,9 +68,7 @@ def parseObs (ob : Json) : OObs :=
     wjp := ((jArrField? ob "wjp").getD []).filterMap keyJ,
     prep := ((jArrField? ob "prep").getD []).filterMap fun e =>
       match jArr? e with
-      | some [p, n, h, m] =>
-        -- manually submitted tasks do not pass through a queue
-        if jBool? m == some true then none else do return ((← jInt? p, ← jStr? n), (jBool? h).getD false)
+      | some (p :: n :: h :: _) => do return ((← jInt? p, ← jStr? n), (jBool? h).getD false)
       | _ => none,
     launch := ((jArrField? ob "launch").getD []).filterMap keyJ }
 
@@ -73,6 +80,9 @@ def showKey (k : Key) : String := s!"{k.1}/{k.2}"
 def activeOf (members : List String) (o : OObs) : List Key :=
   (o.pool.filter fun t => members.contains t.key.2 && (isActiveStr t.st || o.wjp.contains t.key)).map (·.key)
 
+def isActiveKey (o : OObs) (k : Key) : Bool :=
+  o.wjp.contains k || o.pool.any fun t => t.key == k && isActiveStr t.st
+
 def firstSome {α} (l : List α) (f : α → Option String) : Option String :=
   l.foldl (fun acc x => match acc with | some w => some w | none => f x) none
 
@@ -83,11 +93,28 @@ def indexOf? (k : Key) : List Key → Option Nat
 /-- `l` restricted to the elements of `keep`, in the order of `l` -/
 def restrict (l keep : List Key) : List Key := l.filter keep.contains
 
-/-- J1 + J2 on one observation (`prev` = the observation before the operation, if any).
+def keyOfId (s : String) : Option Key :=
+  match s.splitOn "/" with
+  | [p, n] => p.toInt?.map fun q => (q, n)
+  | _ => none
+
+/-- the ids of a `cylc trigger` command, in the order in which the command handled them (hint `groups`
+written back by the runner; else the order of the argument) -/
+def triggerIds (op : Json) : List Key :=
+  if jStrField? op "op" == some "cmd" && jStrField? op "name" == some "force_trigger_tasks" then
+    let args := (jField? op "args").getD Json.null
+    let given := ((jArrField? args "tasks").getD []).filterMap fun t => (jStr? t).bind keyOfId
+    let hint := ((jArrField? op "groups").getD []).flatMap fun grp =>
+      ((jArr? grp).getD []).filterMap fun t => (jStr? t).bind keyOfId
+    hint ++ given.filter fun k => !hint.contains k
+  else []
+
+/-- J1 + J2 + J6 on one observation (`prev` = the observation before the operation, if any; `trig` = the ids the
+operation triggered manually; `exempt` = members triggered while queued and active ever since).
 A limit that is exceeded because a member became active in this operation WITHOUT having been handed to job
-preparation by its queue (a job message moved a waiting proxy to running) is the recorded finding
-`unsolicited-message-activation`; every other excess is a plain failure. -/
-def judgeState (g : Graph) (idx : Nat) (prev : Option OObs) (o : OObs) : Option String :=
+preparation by its queue and without a manual trigger (a job message moved a waiting proxy to running) is the
+recorded finding `unsolicited-message-activation`; every other excess is a plain failure. -/
+def judgeState (g : Graph) (idx : Nat) (prev : Option OObs) (trig exempt : List Key) (o : OObs) : Option String :=
   let j1 := firstSome o.pool fun t =>
     let n := (g.queues.filter fun q => q.members.contains t.key.2).length
     if n == 1 then none
@@ -95,31 +122,87 @@ def judgeState (g : Graph) (idx : Nat) (prev : Option OObs) (o : OObs) : Option 
   match j1 with
   | some w => some w
   | none =>
+  -- J6
+  let j6 := firstSome o.qs fun oq =>
+    match g.queues.find? (·.name == oq.name) with
+    | none => some s!"obs {idx}: queue {oq.name} is not a configured queue"
+    | some q =>
+      match oq.deque.find? fun k => !q.members.contains k.2 with
+      | some k => some s!"obs {idx}: {showKey k} sits in queue {q.name} (members {q.members}), which is not its queue"
+      | none => none
+  match j6 with
+  | some w => some w
+  | none =>
+  -- J8: a task with a job (or on its way to one) must not sit in a queue - the queue would release it again
+  let j8 := firstSome o.qs fun oq =>
+    match oq.deque.find? (isActiveKey o) with
+    | none => none
+    | some k =>
+      let what := s!"obs {idx}: {showKey k} is active (has a job or waits on job preparation) and sits in queue {oq.name} {oq.deque.map showKey}"
+      match prev with
+      | some b =>
+        if trig.contains k && b.wjp.contains k then
+          some s!"retrigger-queued-and-started: {what}: it was triggered again while already waiting on job preparation"
+        else if !isActiveKey b k && !(o.prep.map (·.1)).contains k && !trig.contains k then
+          some s!"unsolicited-message-activation: {what}: it became active without being released by the queue"
+        else some what
+      | none => some what
+  match j8 with
+  | some w => some w
+  | none =>
     firstSome g.queues fun q =>
       if q.limit == 0 then none else
       let act := activeOf q.members o
-      if act.length > q.limit then
+      let counted := act.filter fun k => !exempt.contains k
+      if counted.length > q.limit then
         let unsolicited : List Key := match prev with
           | none => []
-          | some b => act.filter fun k => !(activeOf q.members b).contains k && !(o.prep.map (·.1)).contains k
+          | some b => counted.filter fun k =>
+              !(activeOf q.members b).contains k && !(o.prep.map (·.1)).contains k && !trig.contains k
         if unsolicited.isEmpty then
-          some s!"obs {idx}: queue {q.name} (limit {q.limit}) has {act.length} active members: {act.map showKey}"
+          some s!"obs {idx}: queue {q.name} (limit {q.limit}) has {counted.length} active members that were not triggered while queued: {counted.map showKey}"
         else
-          some s!"unsolicited-message-activation: obs {idx}: queue {q.name} (limit {q.limit}) has {act.length} active members {act.map showKey}; {unsolicited.map showKey} became active without being released by the queue"
+          some s!"unsolicited-message-activation: obs {idx}: queue {q.name} (limit {q.limit}) has {counted.length} active members {counted.map showKey}; {unsolicited.map showKey} became active without being released by the queue"
       else none
+
+/-- J7 on a manual trigger: the ids in the order the command handled them, with a running count per queue -/
+def judgeTrigger (g : Graph) (idx : Nat) (trig : List Key) (b a : OObs) : Option String :=
+  let step (acc : List Key × Option String) (k : Key) : List Key × Option String :=
+    -- acc.1 = the ids of this command that have been started so far
+    match acc.2 with
+    | some _ => acc
+    | none =>
+      match b.pool.find? (·.key == k) with
+      | none => acc
+      | some t =>
+        if isActiveStr t.st || b.wjp.contains k then acc             -- has a job / is being prepared: left alone
+        else
+          let startedNow := isActiveKey a k && !a.pool.any fun x => x.key == k && x.queued
+          if t.queued then (if startedNow then (acc.1 ++ [k], none) else acc)   -- runs regardless of the limit
+          else
+            match g.queues.find? fun q => q.members.contains k.2 with
+            | none => acc
+            | some q =>
+              let busy := (activeOf q.members b).length + (acc.1.filter fun j => q.members.contains j.2).length
+              if q.limit > 0 && busy ≥ q.limit && startedNow then
+                (acc.1, some s!"op {idx}: {showKey k} (not queued) was triggered while its queue {q.name} (limit {q.limit}) was full ({busy} active members) and started instead of being queued")
+              else if startedNow then (acc.1 ++ [k], none) else acc
+  (trig.foldl step ([], none)).2
 
 /-- J3 - J5 on one operation (`b` = observation before, `a` = after) -/
 def judgeOp (g : Graph) (idx : Nat) (isRestart : Bool) (b a : OObs) : Option String :=
   let heldBefore (k : Key) : Bool := b.pool.any fun t => t.key == k && t.held
+  -- handed to job preparation out of a queue in this operation: a proxy that was waiting on job preparation
+  -- already (released earlier, or triggered manually to run now) did not come out of a queue now
+  let released := a.prep.filter fun e => !b.wjp.contains e.1
   -- J4
-  let j4 := firstSome a.prep fun (k, h) =>
+  let j4 := firstSome released fun (k, h) =>
     if h then some s!"op {idx}: held task {showKey k} was released to job preparation" else none
   match j4 with
   | some w => some w
   | none =>
   firstSome g.queues fun q =>
-    -- released by the queue in this operation (a proxy already waiting on job preparation was released earlier)
-    let rel := (a.prep.map (·.1)).filter fun k => q.members.contains k.2 && !b.wjp.contains k
+    let rel := (released.map (·.1)).filter fun k => q.members.contains k.2
     -- J3
     let actB := activeOf q.members b
     if q.limit > 0 && !rel.isEmpty && actB.length + rel.length > q.limit then
@@ -159,19 +242,29 @@ def opIsRestart (op : Json) : Bool := jStrField? op "op" == some "restart"
 
 def judge (g : Graph) (ops : List Json) (o : Json) : Option String :=
   let obs := (obsList o).map parseObs
-  let rec go (i : Nat) (prev : Option OObs) (ops : List Json) : List OObs → Option String
+  let rec go (i : Nat) (prev : Option OObs) (exempt : List Key) (ops : List Json) : List OObs → Option String
     | [] => none
     | ob :: rest =>
-      match judgeState g i prev ob with
-      | some w => some w
+      match prev with
       | none =>
-        match prev with
-        | none => go (i + 1) (some ob) ops rest
-        | some b =>
-          match judgeOp g i (match ops with | op :: _ => opIsRestart op | [] => false) b ob with
+        match judgeState g i none [] [] ob with
+        | some w => some w
+        | none => go (i + 1) (some ob) [] ops rest
+      | some b =>
+        let op := match ops with | op :: _ => op | [] => Json.null
+        let trig := triggerIds op
+        -- members triggered while queued run regardless of the limit, for as long as they stay active
+        let exempt := (exempt ++ trig.filter fun k => b.pool.any fun t => t.key == k && t.queued).filter (isActiveKey ob)
+        match judgeState g i (some b) trig exempt ob with
+        | some w => some w
+        | none =>
+          match judgeTrigger g i trig b ob with
           | some w => some w
-          | none => go (i + 1) (some ob) (ops.drop 1) rest
-  go 0 none ops obs
+          | none =>
+            match judgeOp g i (opIsRestart op) b ob with
+            | some w => some w
+            | none => go (i + 1) (some ob) exempt (ops.drop 1) rest
+  go 0 none [] ops obs
 
 def handle (i o : Json) : Except String Reply := do
   if let some r := crashReply? i then return r
